@@ -190,6 +190,16 @@ func init() {
 		l.p("def fiterValidIsFltAndRange : Bool := %s", leanBool(okConj))
 		l.p("/-- the range check, normalised (conversions and hoisted locals removed, timestamp on the left, lower bound first) -/")
 		l.p("def fiterRangeCheck : String := %s", leanStr(rangeCheckDesc(ff, rangeFd, getFd)))
+		// --- the range newFIterator filters with when the statement has no RANGE
+		if nf := funcDecl(ff, "", "newFIterator"); nf == nil || nf.Body == nil {
+			problem("pkg/cursor/fiterator.go: newFIterator not found")
+		} else if mn, mx, ok := c05DefaultRange(nf, c05LoadConsts("pkg/model")); !ok {
+			problem("newFIterator: the default TimeRange{min, max} literal is not found or not constant")
+		} else {
+			l.p("/-- newFIterator without a RANGE: `tmRange = model.TimeRange{<min>, <max>}`, constants resolved -/")
+			l.p("def fiterDefaultRangeMin : Int := %s", mn.String())
+			l.p("def fiterDefaultRangeMax : Int := %s", mx.String())
+		}
 		c05CallerFacts(l)
 		l.write()
 	}
